@@ -1049,4 +1049,365 @@ theorem reservoir_strict' {α} (n s : Nat) (steps : List Step) (xs out : List α
   · right; simp [hlt] at this; exact this
   · left; simp [hlt] at this; omega
 
+
+/-! # Phase 2 -/
+
+/-! BatchSafe -/
+theorem chunkGo_head {α} (k : Nat) (xs cur : List α) (hcur : cur.length < k) (hne : cur ++ xs ≠ []) :
+    ∃ rest, chunkGo k xs cur = (cur ++ xs.take (k - cur.length)) :: rest := by
+  induction xs generalizing cur with
+  | nil =>
+    simp only [chunkGo]
+    cases cur with
+    | nil => simp at hne
+    | cons c cs => exact ⟨[], by simp⟩
+  | cons x xs ih =>
+    simp only [chunkGo]
+    split
+    · rename_i heq
+      simp at heq
+      refine ⟨chunkGo k xs [], ?_⟩
+      have : k - cur.length = 1 := by omega
+      simp [this]
+    · rename_i hne'
+      simp at hne'
+      obtain ⟨rest, hr⟩ := ih (cur ++ [x]) (by simp; omega) (by simp)
+      refine ⟨rest, ?_⟩
+      rw [hr]
+      have : k - cur.length = (k - (cur ++ [x]).length) + 1 := by simp; omega
+      rw [this]
+      simp
+
+theorem chunks_head {α} (k : Nat) (hk : 0 < k) (xs : List α) (hne : xs ≠ []) :
+    ∃ rest, chunks k xs = xs.take k :: rest := by
+  have := chunkGo_head k xs [] (by simpa using hk) (by simpa using hne)
+  simpa [chunks] using this
+
+theorem batchF_first {V} (size : Nat) (hs : 0 < size) (ks : List String) (hne : ks ≠ []) (recs : List (Rec V))
+    (hr : recs ≠ []) (hu : uniformKeys ks recs) (bs : List (Batched V)) (hb : batchF size recs = .ok bs) :
+    ∃ first rest, bs = first :: rest ∧ firstBatchSize first = min size recs.length ∧ unbatchF bs = recs := by
+  obtain ⟨bs', hb', hub⟩ := batch_unbatch_id' size ks hne recs hu
+  rw [hb] at hb'
+  injection hb' with hb'
+  subst hb'
+  obtain ⟨hnd, hk⟩ := hu
+  cases recs with
+  | nil => exact absurd rfl hr
+  | cons x xs =>
+    simp only [batchF, Nat.ne_of_gt hs, ↓reduceIte] at hb
+    have hx : x.map (·.1) = ks := hk x (by simp)
+    rw [hx] at hb
+    obtain ⟨rest, hch⟩ := chunks_head size hs (x :: xs) (by simp)
+    rw [hch] at hb
+    simp only [batchAll] at hb
+    have hmem : ∀ r ∈ (x :: xs).take size, r.map (·.1) = ks := fun r hr' => hk r (List.mem_of_mem_take hr')
+    obtain ⟨cols, hc, _, hlen, hkeys⟩ := transpose_id ks hnd _ hmem
+    rw [hc] at hb
+    cases hcs : batchAll ks rest with
+    | error e => simp [hcs] at hb
+    | ok cs =>
+      simp only [hcs] at hb
+      injection hb with hb
+      subst hb
+      refine ⟨.batch cols, cs.map .batch, by simp, ?_, hub⟩
+      cases cols with
+      | nil => simp at hkeys; exact absurd hkeys hne
+      | cons c cols =>
+        obtain ⟨k, vs⟩ := c
+        have := hlen (k, vs) (by simp)
+        simp only [firstBatchSize]
+        simpa [List.length_take] using this
+
+theorem batchSafe_nil' {V} (G : List (Batched V) → Except Err (List (Batched V))) : batchSafe G [] = .ok [] := rfl
+
+theorem batchSafe_plain' {V} (G : List (Batched V) → Except Err (List (Batched V))) (r : Rec V) (rest : List (Batched V)) :
+    batchSafe G (.plain r :: rest) = G (.plain r :: rest) := by
+  simp [batchSafe, firstBatchSize]
+
+theorem batchSafe_batched' {V} (G : List (Batched V) → Except Err (List (Batched V)))
+    (size : Nat) (hs : 0 < size) (ks : List String) (hne : ks ≠ []) (recs : List (Rec V))
+    (hr : recs ≠ []) (hu : uniformKeys ks recs) (bs : List (Batched V)) (hb : batchF size recs = .ok bs) :
+    batchSafe G bs = (match G (recs.map .plain) with
+      | .error e => .error e
+      | .ok ys => batchF (min size recs.length) (unbatchF ys)) := by
+  obtain ⟨first, rest, hbs, hsz, hub⟩ := batchF_first size hs ks hne recs hr hu bs hb
+  subst hbs
+  have hpos : min size recs.length ≠ 0 := by
+    have : 0 < recs.length := List.length_pos_of_ne_nil hr
+    omega
+  simp only [batchSafe, hsz, hpos, ↓reduceIte, hub]
+  cases G (List.map Batched.plain recs) <;> rfl
+
+theorem liftF_plain {V} (F : List (Rec V) → Except Err (List (Rec V))) (recs : List (Rec V)) :
+    liftF F (recs.map .plain) = (match F recs with | .error e => .error e | .ok ys => .ok (ys.map .plain)) := by
+  simp only [liftF, unbatchF_plain]
+  cases F recs <;> rfl
+
+theorem batchsafe_eq_plain' {V} (F : List (Rec V) → Except Err (List (Rec V))) :
+    (batchSafe (liftF F) [] = .ok []) ∧
+    (∀ recs : List (Rec V), recs ≠ [] →
+      batchSafe (liftF F) (recs.map .plain) = (match F recs with | .error e => .error e | .ok ys => .ok (ys.map .plain))) ∧
+    (∀ (size : Nat) (ks : List String) (recs : List (Rec V)) (bs : List (Batched V)),
+      0 < size → ks ≠ [] → recs ≠ [] → uniformKeys ks recs → batchF size recs = .ok bs →
+      batchSafe (liftF F) bs = (match F recs with | .error e => .error e | .ok ys => batchF (min size recs.length) ys)) := by
+  refine ⟨rfl, ?_, ?_⟩
+  · intro recs hr
+    cases recs with
+    | nil => exact absurd rfl hr
+    | cons r rest =>
+      rw [List.map_cons, batchSafe_plain', ← List.map_cons, liftF_plain]
+  · intro size ks recs bs hs hne hr hu hb
+    rw [batchSafe_batched' _ size hs ks hne recs hr hu bs hb, liftF_plain]
+    cases F recs with
+    | error e => rfl
+    | ok ys => simp [unbatchF_plain]
+
+/-! collections -/
+theorem collection_pointwise' {σ E β} (f : Filt σ E β) (envs : Nat → E) (st : Nat → σ)
+    (h : List (Nat × Option Nat)) (k : Nat) :
+    ((runColl f envs st h).filter (·.1 = k)).map (·.2)
+      = runAlone f (envs k) (st k) ((h.filter (·.1 = k)).map (·.2)) := by
+  induction h generalizing st with
+  | nil => simp [runColl, runAlone]
+  | cons p h ih =>
+    obtain ⟨j, c⟩ := p
+    simp only [runColl]
+    by_cases hjk : j = k
+    · subst hjk
+      simp [runAlone, ih]
+    · have : (fun i => if i = j then (f.read (st j) (envs j) c).1 else st i) k = st k := by
+        simp [Ne.symm hjk]
+      simp [hjk, ih, this]
+
+theorem runAlone_cache {α} (nSlice : Nat) (items : List α) (st : Option (CacheSt α)) (h : cacheInv items st)
+    (reads : List (Option Nat)) : runAlone (cacheFilt nSlice) items st reads = reads.map (readSpec items) := by
+  induction reads generalizing st with
+  | nil => rfl
+  | cons c cs ih =>
+    obtain ⟨h1, h2⟩ := cacheRead_spec nSlice items st c h
+    simp only [runAlone, cacheFilt, List.map_cons]
+    rw [h2]
+    congr 1
+    exact ih _ h1
+
+theorem collection_cache' {α} (nSlice : Nat) (envs : Nat → List α) (h : List (Nat × Option Nat)) (k : Nat) :
+    ((runColl (cacheFilt nSlice) envs (fun _ => none) h).filter (·.1 = k)).map (·.2)
+      = ((h.filter (·.1 = k)).map (·.2)).map (readSpec (envs k)) := by
+  rw [collection_pointwise']
+  exact runAlone_cache nSlice (envs k) none trivial _
+
+theorem runAlone_stateless {E α} (F : E → Except Err (List α)) (env : E) (reads : List (Option Nat)) :
+    runAlone (statelessFilt F) env () reads = reads.map (fun c => ((statelessFilt F).read () env c).2) := by
+  induction reads with
+  | nil => rfl
+  | cons c cs ih => simp only [runAlone, List.map_cons]; congr 1
+
+theorem collection_stateless' {E α} (F : E → Except Err (List α)) (envs : Nat → E) (h : List (Nat × Option Nat)) (k : Nat) :
+    ((runColl (statelessFilt F) envs (fun _ => ()) h).filter (·.1 = k)).map (·.2)
+      = ((h.filter (·.1 = k)).map (·.2)).map (fun c => ((statelessFilt F).read () (envs k) c).2) := by
+  rw [collection_pointwise']
+  exact runAlone_stateless F (envs k) _
+
+theorem shared_cex : runShared (cacheFilt 25) (fun k => if k = 0 then [1, 2] else [3]) none [(0, none), (1, none)]
+    = [(0, [1, 2]), (1, [1, 2])] := by decide
+
+/-! seeds -/
+theorem seed_int_congr' (a b : Int) (h : a % (C05.M : Int) = b % (C05.M : Int)) :
+    Seed.norm (.int a) = Seed.norm (.int b) := by
+  simp [Seed.norm, C05.normInt, h]
+
+/-! Reservoir with float formulas -/
+theorem floatSteps_ok {R} (ops : FloatOps R) (U : R → Prop) (laws : FloatLaws ops U) (count : Nat) (hc : 0 < count)
+    (W : R) (hW : W = ops.one ∨ U W) (ts : List (Nat × Nat × Nat))
+    (hts : ∀ t ∈ ts, t.1 < C05.M ∧ t.2.1 < C05.M ∧ t.2.2 < C05.M) :
+    (∀ st ∈ floatSteps ops count W ts, st.okFor count = true) ∧
+    (floatSteps ops count W ts).length = (ts.filter guardOk).length := by
+  induction ts generalizing W with
+  | nil => simp [floatSteps]
+  | cons t ts ih =>
+    obtain ⟨k1, k2, k3⟩ := t
+    have ht := hts (k1, k2, k3) (by simp)
+    have hts' : ∀ t ∈ ts, t.1 < C05.M ∧ t.2.1 < C05.M ∧ t.2.2 < C05.M := fun t h => hts t (by simp [h])
+    simp only [floatSteps]
+    by_cases hg : guardOk (k1, k2, k3) = true
+    · simp only [hg, ↓reduceIte, List.filter_cons_of_pos]
+      have hk : k1 ≠ 0 ∧ k2 ≠ 0 := by simpa [guardOk] using hg
+      have hr1 : U (ops.ofUnif k1) := laws.unif k1 (Nat.pos_of_ne_zero hk.1) ht.1
+      have hr2 : U (ops.ofUnif k2) := laws.unif k2 (Nat.pos_of_ne_zero hk.2) ht.2.1
+      have hp : U (ops.pw (ops.ofUnif k1) (ops.inv count)) := laws.pw_unit _ _ hr1 hc
+      have hW' : U (ops.mul W (ops.pw (ops.ofUnif k1) (ops.inv count))) := by
+        rcases hW with rfl | hW
+        · exact laws.mul_one _ hp
+        · exact laws.mul_unit _ _ hW hp
+      have hbase := laws.oneMinus_unit _ hW'
+      have hstep : floatStep ops count W k1 k2 k3 =
+          (ops.mul W (ops.pw (ops.ofUnif k1) (ops.inv count)),
+           .skip (ops.quotFloor (ops.lg (ops.ofUnif k2)) (ops.lg (ops.oneMinus (ops.mul W (ops.pw (ops.ofUnif k1) (ops.inv count))))))
+                 (ops.slot (ops.ofUnif k3) count)) := by
+        simp [floatStep, laws.pos_unit _ hr2, laws.pos_unit _ hbase, laws.lg_ne_zero _ hbase]
+      simp only [hstep]
+      obtain ⟨h1, h2⟩ := ih _ (Or.inr hW') hts'
+      constructor
+      · intro st hst
+        rcases List.mem_cons.1 hst with rfl | hst
+        · simpa [Step.okFor] using laws.slot_lt k3 count ht.2.2 hc
+        · exact h1 st hst
+      · simp [h2]
+    · have hg' : guardOk (k1, k2, k3) = false := by simpa using hg
+      simp only [hg', Bool.false_eq_true, ↓reduceIte]
+      rw [List.filter_cons_of_neg (by simp [hg'])]
+      exact ih W hW hts'
+
+theorem triples_lt (s n : Nat) : ∀ t ∈ triples s n, t.1 < C05.M ∧ t.2.1 < C05.M ∧ t.2.2 < C05.M := by
+  induction n generalizing s with
+  | zero => simp [triples]
+  | succ n ih =>
+    intro t ht
+    simp only [triples, List.mem_cons] at ht
+    rcases ht with rfl | ht
+    · exact ⟨C05.next_lt _, C05.next_lt _, C05.next_lt _⟩
+    · exact ih _ t ht
+
+theorem reservoir_total_laws' {R α} (ops : FloatOps R) (U : R → Prop) (laws : FloatLaws ops U)
+    (n : Nat) (strict : Bool) (s : Nat) (ts : List (Nat × Nat × Nat)) (xs : List α)
+    (hts : ∀ t ∈ ts, t.1 < C05.M ∧ t.2.1 < C05.M ∧ t.2.2 < C05.M)
+    (hl : xs.length < (ts.filter guardOk).length) :
+    ∃ out, reservoir (some n) strict s (floatSteps ops n ops.one ts) xs = .ok out := by
+  cases n with
+  | zero => exact ⟨_, rfl⟩
+  | succ n =>
+    obtain ⟨h1, h2⟩ := floatSteps_ok ops U laws (n+1) (Nat.succ_pos n) ops.one (Or.inl rfl) ts hts
+    apply reservoir_total'
+    · intro m hm st hst
+      cases hm
+      exact h1 st hst
+    · rw [h2]; exact hl
+
+theorem reservoirF_total' {R α} (ops : FloatOps R) (U : R → Prop) (laws : FloatLaws ops U)
+    (count : Option Nat) (strict : Bool) (s nT : Nat) (xs : List α)
+    (hl : ∀ n, count = some n → xs.length < ((triples (reservoirState count s xs) nT).filter guardOk).length) :
+    ∃ out, reservoirF ops count strict s nT xs = .ok out := by
+  cases count with
+  | none => exact ⟨_, rfl⟩
+  | some n =>
+    simp only [reservoirF]
+    exact reservoir_total_laws' ops U laws n strict s _ xs (triples_lt _ _) (hl n rfl)
+
+theorem ratOps_laws : FloatLaws ratOps (fun x : Rat => 0 < x ∧ x < 1) where
+  unif k h0 hM := by
+    have hMq : (0 : Rat) < (C05.M : Rat) := C05.MQ_pos
+    simp only [ratOps]
+    constructor
+    · have : (0 : Rat) < (k : Rat) := by exact_mod_cast h0
+      positivity
+    · rw [div_lt_one hMq]; exact_mod_cast hM
+  pw_unit r n hr _ := hr
+  mul_one p hp := by simpa [ratOps] using hp
+  mul_unit w p hw hp := by
+    simp only [ratOps]
+    exact ⟨mul_pos hw.1 hp.1, by nlinarith [hw.1, hw.2, hp.1, hp.2]⟩
+  oneMinus_unit w hw := by simp only [ratOps]; constructor <;> linarith [hw.1, hw.2]
+  pos_unit r hr := by simp [ratOps, hr.1]
+  lg_ne_zero r hr := by
+    simp only [ratOps, decide_eq_false_iff_not]
+    intro h; linarith [hr.2]
+  slot_lt k n hk hn := by
+    simp only [ratOps]
+    have hMq : (0 : Rat) < (C05.M : Rat) := C05.MQ_pos
+    have hnq : (0 : Rat) < (n : Rat) := by exact_mod_cast hn
+    have hk' : (k : Rat) < (C05.M : Rat) := by exact_mod_cast hk
+    have h0 : (0 : Rat) ≤ (k : Rat) / (C05.M : Rat) * (n : Rat) := by positivity
+    have h1 : (k : Rat) / (C05.M : Rat) * (n : Rat) < (n : Rat) := by
+      have : (k : Rat) / (C05.M : Rat) < 1 := by rw [div_lt_one hMq]; exact hk'
+      nlinarith
+    have hf0 : (0 : Int) ≤ ((k : Rat) / (C05.M : Rat) * (n : Rat)).floor := Rat.le_floor_iff.2 (by exact_mod_cast h0)
+    have hf1 : ((k : Rat) / (C05.M : Rat) * (n : Rat)).floor < (n : Int) := Rat.floor_lt_iff.2 (by exact_mod_cast h1)
+    omega
+
+theorem isort_all_le {α} (le : α → α → Bool) (h : ∀ a b, le a b = true) (l : List α) : isort le l = l := by
+  induction l with
+  | nil => rfl
+  | cons a l ih =>
+    simp only [isort, ih]
+    cases l with
+    | nil => rfl
+    | cons b l => simp [insertBy, h]
+
+/-- no keys on sparse contexts: the key of an interaction is the list of its context's key NAMES -/
+theorem sort_sparse_nokeys_key' (b : Bool) (kvs : List (Val × Val)) :
+    sortKey [] b (.sparse kvs) = .ok (kvs.map (·.1)) := rfl
+
+/-- …so interactions whose sparse contexts carry the same names (whatever the values) all tie and
+`Sort()` returns them in their input order -/
+theorem sort_sparse_nokeys_same_names' {α} (hasCtx : α → Bool) (ctx : α → Ctx) (names : List Val)
+    (x : α) (xs : List α) (hc : hasCtx x = true)
+    (hn : ∀ a ∈ x :: xs, ∃ kvs, ctx a = .sparse kvs ∧ kvs.map (·.1) = names) :
+    sortF hasCtx ctx [] (x :: xs) = .ok (x :: xs) := by
+  have hk : ∀ a ∈ x :: xs, sortKey [] (ctx x).isSparse (ctx a) = .ok ((fun _ => names) a) := by
+    intro a ha
+    obtain ⟨kvs, h1, h2⟩ := hn a ha
+    rw [h1, sort_sparse_nokeys_key', h2]
+  rw [sortF_eq_sortBy' hasCtx ctx [] (fun _ => names) x xs hc hk]
+  congr 1
+  unfold sortBy
+  apply isort_all_le
+  intro a b
+  rcases keyLe_total' names names with h | h <;> exact h
+
+theorem sort_ok_all_keys' {α} (hasCtx : α → Bool) (ctx : α → Ctx) (keys : List Val)
+    (x : α) (xs out : List α) (hc : hasCtx x = true) (h : sortF hasCtx ctx keys (x :: xs) = .ok out) :
+    ∀ a ∈ x :: xs, ∃ k, sortKey keys (ctx x).isSparse (ctx a) = .ok k := by
+  simp only [sortF, hc, Bool.not_true, Bool.false_eq_true, ↓reduceIte] at h
+  split at h
+  · simp at h
+  · rename_i kxs hd
+    exact decorate_err _ _ _ hd
+
+theorem sort_sparse_missing_key' (keys : List Val) (hk : keys ≠ []) (kvs : List (Val × Val)) :
+    sortKey keys true (.sparse kvs) = .ok (keys.map (fun k => match lookupVal k kvs with | some v => v | none => .num 0)) := by
+  cases keys with
+  | nil => exact absurd rfl hk
+  | cons k ks => rfl
+
+theorem sort_dense_short' (k : Nat) (vs : List Val) (h : vs.length ≤ k) :
+    sortKey [.num (k : Rat)] false (.dense vs) = .error .indexError := by
+  have hq : ((k : Rat)).den = 1 := by simp
+  have hn : ((k : Rat)).num = (k : Int) := by simp
+  simp only [sortKey, Bool.false_eq_true, ↓reduceIte, subscripts, subscript, hq, hn, pyIndex]
+  have : vs[k]? = none := List.getElem?_eq_none (by omega)
+  simp [this]
+
+theorem eShuffle_map' {α β} (f : α → β) (isLogged : β → Bool) (sP sL : Nat) (xs : List α) :
+    eShuffle isLogged sP sL (xs.map f) = (eShuffle (isLogged ∘ f) sP sL xs).map f := by
+  cases xs with
+  | nil => rfl
+  | cons x xs =>
+    simp only [List.map_cons, eShuffle, Function.comp]
+    rw [← List.map_cons, pShuffle_map']
+
+theorem reservoirState_map {α β} (f : α → β) (count : Option Nat) (s : Nat) (xs : List α) :
+    reservoirState count s (xs.map f) = reservoirState count s xs := by
+  cases count with
+  | none => simp [reservoirState, shuffle_map']
+  | some n => simp [reservoirState, ← List.map_take, shuffle_map']
+
+theorem reservoirF_map' {R α β} (f : α → β) (ops : FloatOps R) (count : Option Nat) (strict : Bool) (s nT : Nat)
+    (xs : List α) :
+    reservoirF ops count strict s nT (xs.map f) = (reservoirF ops count strict s nT xs).map (List.map f) := by
+  simp only [reservoirF, reservoirState_map, reservoir_map']
+
+theorem seeded_det' {α β} (f : α → β) (sd lsd : Seed) (xs : List α) :
+    shuffleSeeded sd (xs.map f) = (shuffleSeeded sd xs).map f ∧
+    (∀ sp, riffleSeeded sp sd (xs.map f) = (riffleSeeded sp sd xs).map f) ∧
+    (∀ isLogged : β → Bool,
+      eShuffleSeeded isLogged sd lsd (xs.map f) = (eShuffleSeeded (isLogged ∘ f) sd lsd xs).map f) ∧
+    (∀ {R} (ops : FloatOps R) c strict nT,
+      reservoirF ops c strict sd.norm nT (xs.map f) = (reservoirF ops c strict sd.norm nT xs).map (List.map f)) :=
+  ⟨pShuffle_map' f _ xs, fun sp => riffle_map' f sp _ xs, fun il => eShuffle_map' f il _ _ xs,
+   fun ops c st nT => reservoirF_map' f ops c st _ nT xs⟩
+
+theorem seeded_perm' {α} (isLogged : α → Bool) (sd lsd : Seed) (sp : Nat) (xs : List α) :
+    (shuffleSeeded sd xs).Perm xs ∧ (eShuffleSeeded isLogged sd lsd xs).Perm xs ∧ (riffleSeeded sp sd xs).Perm xs :=
+  ⟨pShuffle_perm' _ xs, eShuffle_perm' _ _ _ xs, riffle_perm' _ _ xs⟩
+
 end Coba.C09
